@@ -22,14 +22,22 @@ R(i) == <<i, 1>>
 Zero == <<0, 1>>
 One == <<1, 1>>
 
+\* Common factors are cancelled BEFORE multiplying, so intermediate products stay as small as the
+\* (normalised) result allows.
 RAdd(a, b) == IF a[2] = b[2] THEN Norm(a[1] + b[1], a[2])
-              ELSE Norm(a[1] * b[2] + b[1] * a[2], a[2] * b[2])
+              ELSE LET g == RGcd(a[2], b[2]) IN
+                   Norm(a[1] * (b[2] \div g) + b[1] * (a[2] \div g), (a[2] \div g) * b[2])
 RNeg(a) == <<-a[1], a[2]>>
 RSub(a, b) == RAdd(a, RNeg(b))
-RMul(a, b) == Norm(a[1] * b[1], a[2] * b[2])
-RDiv(a, b) == Norm(a[1] * b[2], a[2] * b[1])      \* b # 0
-RLt(a, b) == a[1] * b[2] < b[1] * a[2]
-RLe(a, b) == a[1] * b[2] <= b[1] * a[2]
+\* a, b normalised: after cross-cancellation the product is normalised as well
+RMul(a, b) == IF a[1] = 0 \/ b[1] = 0 THEN <<0, 1>>
+              ELSE LET g1 == RGcd(AbsI(a[1]), b[2])
+                       g2 == RGcd(AbsI(b[1]), a[2])
+                   IN <<(a[1] \div g1) * (b[1] \div g2), (a[2] \div g2) * (b[2] \div g1)>>
+RInv(b) == IF b[1] < 0 THEN <<-b[2], -b[1]>> ELSE <<b[2], b[1]>>      \* b # 0
+RDiv(a, b) == RMul(a, RInv(b))                                        \* b # 0
+RLt(a, b) == LET g == RGcd(a[2], b[2]) IN a[1] * (b[2] \div g) < b[1] * (a[2] \div g)
+RLe(a, b) == LET g == RGcd(a[2], b[2]) IN a[1] * (b[2] \div g) <= b[1] * (a[2] \div g)
 RIsZero(a) == a[1] = 0
 RIsNeg(a) == a[1] < 0
 RIsPos(a) == a[1] > 0
